@@ -41,8 +41,11 @@ pub fn source_for(case: &Json) -> String {
         let _ = q;
         s.push_str(&format!("  s{i} : BOOL := {init};\n"));
     }
-    for (i, _) in programs.iter().enumerate() {
+    for (i, p) in programs.iter().enumerate() {
         s.push_str(&format!("  mark{i} : DINT := 0;\n  runs{i} : DINT := 0;\n"));
+        if p["fb_task"].as_u64().is_some_and(|t| (t as usize) < tasks.len()) {
+            s.push_str(&format!("  fmark{i} : DINT := 0;\n  fruns{i} : DINT := 0;\n"));
+        }
     }
     s.push_str("END_VAR\n");
     for (i, t) in tasks.iter().enumerate() {
@@ -57,19 +60,33 @@ pub fn source_for(case: &Json) -> String {
         s.push_str(&format!("TASK T{i} ({});\n", parts.join(", ")));
     }
     for (i, p) in programs.iter().enumerate() {
+        // task-associated FB instance: `(fx WITH Tn)` runs in Tn's turn, after Tn's programs
+        let fb = match p["fb_task"].as_u64() {
+            Some(t) if (t as usize) < tasks.len() => format!(" (fx WITH T{t})"),
+            _ => String::new(),
+        };
         match p["task"].as_u64() {
-            Some(t) => s.push_str(&format!("PROGRAM P{i} WITH T{t} : Prog{i};\n")),
-            None => s.push_str(&format!("PROGRAM P{i} : Prog{i};\n")),
+            Some(t) => s.push_str(&format!("PROGRAM P{i} WITH T{t} : Prog{i}{fb};\n")),
+            None => s.push_str(&format!("PROGRAM P{i} : Prog{i}{fb};\n")),
         }
     }
     s.push_str("END_CONFIGURATION\n\n");
     for (i, p) in programs.iter().enumerate() {
+        let has_fb = p["fb_task"].as_u64().is_some_and(|t| (t as usize) < tasks.len());
+        if has_fb {
+            s.push_str(&format!(
+                "FUNCTION_BLOCK Fbx{i}\nVAR_EXTERNAL\n  seq : DINT;\n  fmark{i} : DINT;\n  fruns{i} : DINT;\nEND_VAR\nseq := seq + 1;\nfmark{i} := seq;\nfruns{i} := fruns{i} + 1;\nEND_FUNCTION_BLOCK\n\n"
+            ));
+        }
         s.push_str(&format!("PROGRAM Prog{i}\nVAR_EXTERNAL\n  seq : DINT;\n  mark{i} : DINT;\n  runs{i} : DINT;\n"));
         let tog = &p["toggles"];
         if let Some(sg) = tog["single"].as_u64() {
             s.push_str(&format!("  s{sg} : BOOL;\n"));
         }
         s.push_str("END_VAR\n");
+        if has_fb {
+            s.push_str(&format!("VAR\n  fx : Fbx{i};\nEND_VAR\n"));
+        }
         s.push_str(&format!("seq := seq + 1;\nmark{i} := seq;\nruns{i} := runs{i} + 1;\n"));
         if let Some(sg) = tog["single"].as_u64() {
             match tog["mode"].as_str().unwrap_or("toggle") {
@@ -89,6 +106,8 @@ struct MTask {
     single: Option<usize>,
     priority: u64,
     programs: Vec<usize>,
+    /// program indices whose FB instance `fx` is associated with this task (declaration order)
+    fbs: Vec<usize>,
     last_single: bool,
     last_run: i64,
     overruns: u64,
@@ -146,7 +165,8 @@ impl Check for C06Check {
             } else {
                 Json::Null
             };
-            programs.push(json!({"task": task, "toggles": toggles}));
+            let fb_task = if cfg.chance(1, 4) { Some(cfg.usize(0, n_tasks - 1)) } else { None };
+            programs.push(json!({"task": task, "toggles": toggles, "fb_task": fb_task}));
         }
         let n_ops = match tier {
             Tier::Quick => ops_rng.usize(10, 50),
@@ -154,11 +174,16 @@ impl Check for C06Check {
         };
         let stall_heavy = ops_rng.chance(1, 5);
         let restarts = ops_rng.chance(1, 3);
+        let reloads = ops_rng.chance(1, 4);
         let intervals: Vec<i64> = tasks.iter().map(|t| t["interval_ns"].as_i64().unwrap()).filter(|i| *i > 0).collect();
         let mut ops = vec![];
         for _ in 0..n_ops {
             if restarts && ops_rng.chance(1, 25) {
                 ops.push(json!({"k": "restart", "mode": if ops_rng.bool() { "warm" } else { "cold" }}));
+                continue;
+            }
+            if reloads && ops_rng.chance(1, 25) {
+                ops.push(json!({"k": "reload"}));
                 continue;
             }
             let dt: i64 = if stall_heavy && ops_rng.chance(1, 2) {
@@ -224,11 +249,26 @@ impl Check for C06Check {
                     .filter(|(_, p)| p["task"].as_u64() == Some(ti as u64))
                     .map(|(pi, _)| pi)
                     .collect(),
+                fbs: programs
+                    .iter()
+                    .enumerate()
+                    .filter(|(_, p)| p["fb_task"].as_u64() == Some(ti as u64))
+                    .map(|(pi, _)| pi)
+                    .collect(),
                 last_single: false,
                 last_run: 0,
                 overruns: 0,
             })
             .collect();
+        let n_tasks = tasks.len();
+        let has_fb: Vec<bool> = programs.iter().map(|p| p["fb_task"].as_u64().is_some_and(|t| (t as usize) < n_tasks)).collect();
+        let mut prev_fruns = vec![0i128; n_programs];
+        // container of the same sources for hot reloads (re-registration of the tasks)
+        let reload_bytes = if case["ops"].as_array().is_some_and(|o| o.iter().any(|op| op["k"] == "reload")) {
+            trust_runtime::harness::bytecode_bytes_from_source(&src).ok()
+        } else {
+            None
+        };
         let background: Vec<usize> =
             programs.iter().enumerate().filter(|(_, p)| p["task"].is_null()).map(|(pi, _)| pi).collect();
         let single_val = |rt: &trust_runtime::Runtime, i: usize| world::global_bool(rt, &format!("s{i}")).unwrap_or(false);
@@ -267,8 +307,29 @@ impl Check for C06Check {
                     for (pi, r) in prev_runs.iter_mut().enumerate() {
                         *r = world::global_i(&rt, &format!("runs{pi}")).unwrap_or(0);
                     }
+                    for (pi, r) in prev_fruns.iter_mut().enumerate() {
+                        *r = world::global_i(&rt, &format!("fruns{pi}")).unwrap_or(0);
+                    }
                     let _ = debug.drain_runtime_events();
                     stats.log("restart");
+                }
+                "reload" => {
+                    // hot reload of the same program: the tasks are registered again at the current time
+                    let Some(bytes) = &reload_bytes else { continue };
+                    let r = guard("apply_bytecode_bytes", || rt.apply_bytecode_bytes(bytes, None))?;
+                    if r.is_err() {
+                        // a refused reload is C11's subject; the schedule after it is not judged
+                        stats.inc("reload_refused");
+                        return Ok(());
+                    }
+                    stats.inc("fault.hot_reload");
+                    for t in tasks.iter_mut() {
+                        t.last_run = now;
+                        t.overruns = 0;
+                        t.last_single = t.single.map(|i| single_val(&rt, i)).unwrap_or(false);
+                    }
+                    let _ = debug.drain_runtime_events();
+                    stats.log("reload");
                 }
                 _ => {
                     let dt = op["dt"].as_i64().unwrap_or(0).max(0);
@@ -319,6 +380,11 @@ impl Check for C06Check {
                     let mut expected_programs: Vec<usize> = vec![];
                     for ti in &expected_tasks {
                         expected_programs.extend(tasks[*ti].programs.iter().copied());
+                        // task-associated FB instances run after the task's programs (ids 100 + program index)
+                        expected_programs.extend(tasks[*ti].fbs.iter().map(|pi| 100 + *pi));
+                        if !tasks[*ti].fbs.is_empty() {
+                            stats.inc("probe.task_bound_fb_instance_due");
+                        }
                     }
                     expected_programs.extend(background.iter().copied());
                     // ---- real
@@ -362,6 +428,22 @@ impl Check for C06Check {
                             return Err(Violation::new(
                                 "sched/more-than-once-per-cycle",
                                 format!("op {opi}: program P{pi} ran {delta} times in one cycle"),
+                            ));
+                        }
+                    }
+                    for pi in 0..n_programs {
+                        if !has_fb[pi] {
+                            continue;
+                        }
+                        let runs = world::global_i(&rt, &format!("fruns{pi}")).unwrap_or(-1);
+                        let delta = runs - prev_fruns[pi];
+                        prev_fruns[pi] = runs;
+                        if delta == 1 {
+                            ran.push((world::global_i(&rt, &format!("fmark{pi}")).unwrap_or(-1), 100 + pi));
+                        } else if delta != 0 {
+                            return Err(Violation::new(
+                                "sched/more-than-once-per-cycle",
+                                format!("op {opi}: FB instance of P{pi} ran {delta} times in one cycle"),
                             ));
                         }
                     }
